@@ -9,6 +9,8 @@ from vlib import log
 PROPS = ["C11"]
 
 ASSUME = [
+    "free-running runs (pg-free): interleavings inside one entry region are reached by chance on real threads, not enumerated; only "
+    "call / return lines and the final snapshot are validated",
     "sequential consistency at the granularity of lock regions; inside one map/world entry region only relation-mutex steps "
     "of other threads are interleaved (the join region is split per actor in the model, other regions are atomic)",
     "two keys never block each other (DashMap shard sharing only removes interleavings); deadlock freedom of the lock order is "
